@@ -1,4 +1,6 @@
 """C10  Levinson and the Toeplitz/Hermitian solvers solve their equations."""
+import zlib
+
 import numpy as np
 
 import single
@@ -9,16 +11,27 @@ from common import gen_data, rel, dyadic
 
 TRUSTED_BASE = [
     "CHOLESKY is glue around LAPACK (numpy.linalg.cholesky/solve, scipy.linalg.cholesky/cho_solve): a parameter, "
-    "checked by the residual oracle only",
+    "checked by the residual oracle (all three back ends and the default one, which must also agree with each other)",
     "exact mode: the model runs the recursions in exact Gaussian rationals on the doubles the implementation receives; "
     "agreement required to rtol 1e-7 (conditioning predicate: every stage error P_j >= 1e-6 r0)",
 ]
-PARTIAL = ["CHOLESKY: LAPACK glue, residual oracle only (stability of the prediction polynomial is proved for every order: "
+PARTIAL = ["CHOLESKY: LAPACK glue, no model: residual oracle on every back end plus mutual agreement of the back ends (stability of the prediction polynomial is proved for every order: "
            "C10.levinson_stable, Schur-Cohn by the elementary |A| >= |B| invariant)"]
 ASSUMPTIONS = ["positive-definite sequences are biased autocorrelations of random data; 'clearly indefinite' ones have a "
-               "stage error <= -1e-3 r0"]
-RULE = ("PD sequences = biased autocorrelation of random dyadic data (real/complex), length 2..40, all orders; "
-        "indefinite sequences; random diagonally dominant Toeplitz / Hermitian-PD systems; non-trivial = order >= 1")
+               "stage error <= -1e-3 r0 (and no stage error within 1e-6 r0 of zero); exactly singular ones have a stage "
+               "error that is 0.0 in double precision (small integer / dyadic lags)",
+               "positive definiteness is quantified per order: a sequence whose leading (order+1) lags are positive "
+               "definite is in the PD class for that order whatever the later lags are",
+               "HERMTOEP / LEVINSON: the zero-lag value is real (the stage error P is real), so numpy's lexicographic "
+               "complex `<=` and the model's `re P <= 0` coincide; TOEPLITZ: exact zero test on both sides",
+               "entry forms: numpy arrays (float64, complex128, integer dtypes), lists, tuples, nested lists, numpy "
+               "scalars for T0 / order; a Python complex T0 for HERMTOEP is outside the statement"]
+RULE = ("PD sequences = biased autocorrelation of random dyadic data (real/complex), length 2..40, all orders (incl. 0), "
+        "amplitudes 2^-100..2^70, leading-block-PD sequences with an indefinite tail, exactly zero first / later "
+        "reflection coefficients; clearly indefinite sequences (strict and allow_singularity=True, full and partial "
+        "orders) and exactly singular ones; random diagonally dominant Toeplitz / Hermitian-PD systems and "
+        "right-hand sides at independent amplitudes 2^-80..2^70; Cholesky on Toeplitz and on G^H G + I matrices "
+        "(n = 1..24, 1-D and (n,3) right-hand sides, C / Fortran order); every entry form; non-trivial = order >= 1")
 
 
 def _sp():
@@ -30,9 +43,56 @@ def _T(r, p):
     return sp_toeplitz(r[: p + 1], np.conj(r[: p + 1]))
 
 
-def impl_lev(p):
+def _form(v, form):
+    """the object handed to the library for the canonical array `v`: the array itself, a list / tuple of Python numbers,
+    a list mixing Python floats and complex numbers, nested lists (2-D), or an integer-dtype array (integer values)"""
+    if form in (None, "ndarray"):
+        return v
+    a = np.asarray(v)
+    if form == "list":
+        return a.tolist()
+    if form == "tuple":
+        return tuple(a.tolist())
+    if form == "mixedlist":
+        return [float(z.real) if z.imag == 0 else complex(z) for z in a.astype(complex)]
+    if form in ("int", "int32"):
+        b = np.real(a).astype(np.int64 if form == "int" else np.int32)
+        assert np.array_equal(b, a), "integer form of a non-integer array"
+        return b
+    raise ValueError(form)
+
+
+def _scalar(v, form):
+    if form in (None, "python"):
+        return v
+    if form == "npfloat":
+        return np.float64(v)
+    if form == "int":
+        assert int(v) == v
+        return int(v)
+    if form == "npint":
+        assert int(v) == v
+        return np.int64(v)
+    raise ValueError(form)
+
+
+def _lev_call(p, order="__p__", allow=None):
+    """LEVINSON on the entry form of the case"""
     sp = _sp()
-    A, P, k = sp.LEVINSON(p["r"], p["order"], allow_singularity=p["allow"])
+    r = _form(p["r"], p.get("form"))
+    o = p["order"] if isinstance(order, str) else order
+    if o is not None and p.get("oform") == "int64":
+        o = np.int64(o)
+    al = p["allow"] if allow is None else allow
+    if p.get("bare") and o is None and al is False:
+        return sp.LEVINSON(r)
+    if p.get("bare") and al is False:
+        return sp.LEVINSON(r, o)
+    return sp.LEVINSON(r, o, allow_singularity=al)
+
+
+def impl_lev(p):
+    A, P, k = _lev_call(p)
     return [np.asarray(A), np.array([P]), np.asarray(k)]
 
 
@@ -43,15 +103,15 @@ def model_lev(p):
 
 
 def oracle_lev(p):
-    sp = _sp()
     r = np.asarray(p["r"])
     order = len(r) - 1 if p["order"] is None else p["order"]
     out = []
     if p["cls"] == "pd":
         try:
-            A, P, k = sp.LEVINSON(r, p["order"], allow_singularity=p["allow"])
+            A, P, k = _lev_call(p)
         except Exception as e:
-            return ["LEVINSON raised %r on a positive-definite sequence (n=%d order=%s)" % (e, len(r), p["order"])]
+            return ["LEVINSON raised %r on a positive-definite sequence (n=%d order=%s form=%s)" % (
+                e, len(r), p["order"], p.get("form"))]
         A = np.asarray(A)
         k = np.asarray(k)
         if len(A) != order or len(k) != order:
@@ -61,13 +121,13 @@ def oracle_lev(p):
         rhs = np.zeros(order + 1, dtype=complex)
         rhs[0] = P
         tol = 1e-8 * abs(r[0])
-        if np.max(np.abs(lhs - rhs)) > tol:
+        if not np.max(np.abs(lhs - rhs)) <= tol:
             out.append("T_p [1,a]^T != [P,0..0]^T: residual %.2e (n=%d order=%d %s)" % (
                 np.max(np.abs(lhs - rhs)), len(r), order, "complex" if np.iscomplexobj(r) else "real"))
         if not (np.isreal(P) and P > 0):
             out.append("P = %r is not a positive real" % (P,))
         Pk = np.real(r[0]) * np.prod(1 - np.abs(k) ** 2)
-        if abs(P - Pk) > 1e-9 * abs(r[0]):
+        if not abs(P - Pk) <= 1e-9 * abs(r[0]):
             out.append("P != r0*prod(1-|k_i|^2): %r vs %r" % (P, Pk))
         if not np.all(np.abs(k) < 1):
             out.append("reflection coefficient of modulus >= 1 on PD input")
@@ -78,13 +138,23 @@ def oracle_lev(p):
         # nesting
         q = p.get("q")
         if q is not None and 1 <= q <= order:
-            A2, P2, k2 = sp.LEVINSON(r, q, allow_singularity=p["allow"])
+            A2, P2, k2 = _lev_call(p, order=q)
             if rel(np.asarray(k2).astype(complex), k[:q].astype(complex)) > 1e-9:
                 out.append("order-%d reflection coefficients are not a prefix of the order-%d ones" % (q, order))
+    elif p["cls"] == "singular":
+        # exactly singular: a stage error is exactly 0.0 (boundary of the `<= 0` test); not positive definite -> raises
+        try:
+            res = _lev_call(p, allow=False)
+        except ValueError:
+            return []
+        except Exception as e:
+            return ["LEVINSON raised %r instead of ValueError on an exactly singular sequence" % (e,)]
+        return ["LEVINSON did not raise on the exactly singular sequence r=%s order=%s (returned P=%r)" % (
+            r, p["order"], res[1])]
     else:  # clearly indefinite
         raised = False
         try:
-            sp.LEVINSON(r, p["order"], allow_singularity=False)
+            _lev_call(p, allow=False)
         except ValueError:
             raised = True
         except Exception as e:
@@ -92,15 +162,42 @@ def oracle_lev(p):
         if not raised:
             out.append("LEVINSON did not raise on a clearly indefinite sequence r=%s order=%s" % (np.round(r, 4), p["order"]))
         try:
-            sp.LEVINSON(r, p["order"], allow_singularity=True)
+            A, P, k = _lev_call(p, allow=True)
         except Exception as e:
             out.append("LEVINSON(allow_singularity=True) raised %r" % (e,))
+            return out
+        if p["allow"]:
+            # singularity allowed: the recursion runs through; what it returns still solves the (indefinite) normal
+            # equations and P is still the product formula (P may be negative, |k_i| may exceed 1)
+            A = np.asarray(A)
+            k = np.asarray(k)
+            if len(A) != order or len(k) != order:
+                return out + ["LEVINSON(allow_singularity=True) returned %d coefficients for order %d" % (len(A), order)]
+            if not (np.all(np.isfinite(A)) and np.isfinite(P) and np.all(np.isfinite(k))):
+                return out + ["LEVINSON(allow_singularity=True): non-finite output on a clearly indefinite sequence"]
+            v = np.concatenate(([1], A))
+            lhs = _T(r, order) @ v
+            rhs = np.zeros(order + 1, dtype=complex)
+            rhs[0] = P
+            # the recursion divides by the stage errors: the accuracy is that of the worst-conditioned stage
+            amp = 1.0 / min(1.0, min(abs(x) for x in _stage_errors(r[: order + 1])))
+            scale = np.sum(np.abs(r[: order + 1])) * np.max(np.abs(v))
+            res = np.max(np.abs(lhs - rhs))
+            if not res <= 1e-11 * amp * scale:
+                out.append("allow_singularity=True: T_p [1,a]^T != [P,0..0]^T: residual %.2e (scale %.2e, n=%d order=%d %s)" % (
+                    res, scale, len(r), order, "complex" if np.iscomplexobj(r) else "real"))
+            if np.imag(P) != 0:
+                out.append("allow_singularity=True: P = %r is not real" % (P,))
+            Pk = np.real(r[0]) * np.prod(1 - np.abs(k) ** 2)
+            if not abs(P - Pk) <= 1e-9 * amp * max(abs(P), abs(Pk)):
+                out.append("allow_singularity=True: P != r0*prod(1-|k_i|^2): %r vs %r" % (P, Pk))
     return out
 
 
 def impl_herm(p):
     from spectrum.toeplitz import HERMTOEP
-    return [np.asarray(HERMTOEP(p["T0"], p["T"], p["Z"]))]
+    f = p.get("form")
+    return [np.asarray(HERMTOEP(_scalar(p["T0"], p.get("t0form")), _form(p["T"], f), _form(p["Z"], p.get("zform", f))))]
 
 
 def model_herm(p):
@@ -112,15 +209,20 @@ def oracle_herm(p):
     r = np.concatenate(([p["T0"]], np.asarray(p["T"])))
     T = sp_toeplitz(r, np.conj(r))
     z = np.asarray(p["Z"])
+    if x.shape != z.shape:
+        return ["HERMTOEP: solution of shape %s for a right-hand side of shape %s" % (x.shape, z.shape)]
     res = np.max(np.abs(T @ x - z))
     if not res <= 1e-8 * max(np.max(np.abs(z)), 1e-300) * max(1.0, np.linalg.cond(T)):
-        return ["HERMTOEP: T x != z, residual %.2e (n=%d, T/Z dtypes %s/%s)" % (res, len(r), np.asarray(p["T"]).dtype, z.dtype)]
+        return ["HERMTOEP: T x != z, residual %.2e (n=%d, T/Z dtypes %s/%s, form %s)" % (
+            res, len(r), np.asarray(p["T"]).dtype, z.dtype, p.get("form"))]
     return []
 
 
 def impl_toep(p):
     from spectrum.toeplitz import TOEPLITZ
-    return [np.asarray(TOEPLITZ(p["T0"], p["TC"], p["TR"], p["Z"]))]
+    f = p.get("form")
+    return [np.asarray(TOEPLITZ(_scalar(p["T0"], p.get("t0form")), _form(p["TC"], f), _form(p["TR"], f),
+                                _form(p["Z"], p.get("zform", f))))]
 
 
 def model_toep(p):
@@ -131,9 +233,11 @@ def oracle_toep(p):
     x = impl_toep(p)[0]
     T = sp_toeplitz(np.concatenate(([p["T0"]], np.asarray(p["TC"]))), np.concatenate(([p["T0"]], np.asarray(p["TR"]))))
     z = np.asarray(p["Z"])
+    if x.shape != z.shape:
+        return ["TOEPLITZ: solution of shape %s for a right-hand side of shape %s" % (x.shape, z.shape)]
     res = np.max(np.abs(T @ x - z))
     if not res <= 1e-8 * max(np.max(np.abs(z)), 1e-300) * max(1.0, np.linalg.cond(T)):
-        return ["TOEPLITZ: T x != z, residual %.2e (n=%d)" % (res, len(z))]
+        return ["TOEPLITZ: T x != z, residual %.2e (n=%d, form %s)" % (res, len(z), p.get("form"))]
     return []
 
 
@@ -141,39 +245,77 @@ def oracle_chol(p):
     sp = _sp()
     A = np.asarray(p["A"])
     B = np.asarray(p["B"])
+    Ain = _form(A, p.get("form"))
+    Bin = _form(B, p.get("form"))
+    if p.get("fortran"):
+        Ain = np.asfortranarray(Ain)
+        if B.ndim == 2:
+            Bin = np.asfortranarray(Bin)
     out = []
     xs = []
-    for m in ["scipy", "numpy", "numpy_solver"]:
+    cond = max(1.0, np.linalg.cond(A))
+    for m in ["scipy", "numpy", "numpy_solver", None]:
         try:
-            X = np.asarray(sp.CHOLESKY(A, B, method=m))
+            # None: the method argument is omitted (documented default)
+            X = np.asarray(sp.CHOLESKY(Ain, Bin) if m is None else sp.CHOLESKY(Ain, Bin, method=m))
         except Exception as e:
             out.append("CHOLESKY(method=%s) raised %r on a Hermitian positive-definite system" % (m, e))
             continue
-        xs.append(X)
+        if X.shape != B.shape:
+            out.append("CHOLESKY(method=%s): solution of shape %s for a right-hand side of shape %s" % (m, X.shape, B.shape))
+            continue
+        xs.append((m, X))
         res = np.max(np.abs(A @ X - B))
-        if not res <= 1e-9 * max(np.max(np.abs(B)), 1e-300) * max(1.0, np.linalg.cond(A)):
-            out.append("CHOLESKY(method=%s): A x != B, residual %.2e (n=%d %s)" % (m, res, len(B), A.dtype))
+        if not res <= 1e-9 * max(np.max(np.abs(B)), 1e-300) * cond:
+            out.append("CHOLESKY(method=%s): A x != B, residual %.2e (n=%d %s, B %s)" % (m, res, len(B), A.dtype, B.shape))
+    # the back ends solve the same system: their solutions agree to the accuracy the conditioning allows
+    for m, X in xs[1:]:
+        m0, X0 = xs[0]
+        d = np.max(np.abs(X - X0))
+        if not d <= 1e-9 * max(np.max(np.abs(X0)), 1e-300) * cond:
+            out.append("CHOLESKY: methods %s and %s disagree by %.2e (n=%d %s, B %s)" % (m0, m, d, len(B), A.dtype, B.shape))
     return out
 
 
 def _key(p):
-    arrs = [np.asarray(v) for v in p.values() if isinstance(v, np.ndarray)]
     h = 0
-    for a in arrs:
-        h ^= hash(a.tobytes())
-    return "%s|%s|%d" % (p.get("order"), p.get("cls"), h & 0xFFFFFFF)
+    extra = []
+    for name in sorted(p):
+        v = p[name]
+        if isinstance(v, np.ndarray):
+            h = zlib.crc32(("%s %s %s" % (name, v.dtype, v.shape)).encode() + np.ascontiguousarray(v).tobytes(), h)
+        elif name not in ("order", "cls", "q"):
+            extra.append("%s=%r" % (name, v))
+    return "%s|%s|%d|%s" % (p.get("order"), p.get("cls"), h & 0xFFFFFFF, ",".join(extra))
+
+
+def _forms(p):
+    t = []
+    for name in ("form", "zform", "t0form", "oform"):
+        if p.get(name):
+            t.append("%s:%s" % (name, p[name]))
+    for name in ("bare", "fortran"):
+        if p.get(name):
+            t.append(name)
+    if p.get("amp"):
+        t.append("amp:" + p["amp"])
+    return t
 
 
 KINDS = {
     "lev": {"impl": impl_lev, "model": model_lev, "oracle": oracle_lev, "rtol": 1e-7, "atol": 1e-300, "key": _key,
+            "strict_errors": True,
             "tags": lambda p: ["lev:" + p["cls"], "complex" if np.iscomplexobj(p["r"]) else "real",
-                               "allow" if p["allow"] else "strict", "order:" + ("None" if p["order"] is None else "given")],
+                               "allow" if p["allow"] else "strict", "order:" + ("None" if p["order"] is None else "given")]
+            + (["lev:" + p["fam"]] if p.get("fam") else []) + _forms(p),
             "nontrivial": lambda p: len(p["r"]) >= 2},
     "hermtoep": {"impl": impl_herm, "model": model_herm, "oracle": oracle_herm, "rtol": 1e-7, "atol": 1e-300, "key": _key,
-                 "tags": lambda p: ["herm:T-" + ("complex" if np.iscomplexobj(p["T"]) else "real") + "/Z-" + ("complex" if np.iscomplexobj(p["Z"]) else "real")]},
+                 "tags": lambda p: ["herm:T-" + ("complex" if np.iscomplexobj(p["T"]) else "real") + "/Z-" + ("complex" if np.iscomplexobj(p["Z"]) else "real")] + _forms(p)},
     "toeplitz": {"impl": impl_toep, "model": model_toep, "oracle": oracle_toep, "rtol": 1e-7, "atol": 1e-300, "key": _key,
-                 "tags": lambda p: ["toep:" + ("complex" if np.iscomplexobj(p["TC"]) else "real")]},
-    "cholesky": {"oracle": oracle_chol, "key": _key, "tags": lambda p: ["chol:" + str(np.asarray(p["A"]).dtype)]},
+                 "tags": lambda p: ["toep:" + ("complex" if np.iscomplexobj(p["TC"]) else "real")] + _forms(p)},
+    "cholesky": {"oracle": oracle_chol, "key": _key,
+                 "tags": lambda p: ["chol:" + str(np.asarray(p["A"]).dtype), "chol:B%dd" % np.asarray(p["B"]).ndim,
+                                    "chol:" + p.get("fam", "toeplitz")] + _forms(p)},
 }
 
 
@@ -235,6 +377,20 @@ def gen(rng, nrng, tier):
                     order = [None, n - 1][i % 2] if (i // 4) % 2 == 0 else None
                     # the order actually run must reach the bad stage
                     yield ("lev", {"r": r, "order": order, "allow": False, "cls": "indef"})
+                    # "unless singularity is allowed": the same sequence with allow_singularity=True (compared with the
+                    # model, and the oracle checks the normal equations / the product formula on what is returned)
+                    yield ("lev", {"r": r, "order": order, "allow": True, "cls": "indef"})
+                    # explicit order that reaches the first clearly negative stage but stops below n-1
+                    bad = next(jj for jj, v in enumerate(se) if v < -1e-3) + 1
+                    o2 = bad + (i // 8) % 2
+                    if o2 < n - 1:
+                        yield ("lev", {"r": r, "order": o2, "allow": False, "cls": "indef", "fam": "partial-order"})
+                        yield ("lev", {"r": r, "order": o2, "allow": True, "cls": "indef", "fam": "partial-order"})
+                    if (i // 4) % 5 == 2:
+                        # indefiniteness does not depend on the amplitude either
+                        sc = [2.0 ** -80, 2.0 ** 40, 2.0 ** -30, 2.0 ** 70][(i // 20) % 4]
+                        yield ("lev", {"r": r * sc, "order": order, "allow": bool((i // 40) % 2), "cls": "indef",
+                                       "amp": "2^%d" % round(np.log2(sc))})
                     break
     # sequences with an EXACTLY zero reflection coefficient at a stage >= 2 followed by non-zero ones: r = [1, a, a^2, ...]
     # has k_2 = 0 exactly for dyadic a (a*a is exact); further stages are made non-trivial by perturbing later lags
@@ -275,3 +431,206 @@ def gen(rng, nrng, tier):
             yield ("toeplitz", {"T0": T0c, "TC": TC, "TR": np.conj(TC), "Z": Z})
             yield ("toeplitz", {"T0": T0c, "TC": TC, "TR": TC.copy(), "Z": Z})
             yield ("toeplitz", {"T0": T0c, "TC": np.real(TC).astype(float), "TR": np.real(TC).astype(float), "Z": Z})
+        if i % 2 == 1 and n <= 12:
+            # (n <= 12: the exact model of the general solver on scaled Gaussian rationals takes seconds per case beyond)
+            # the solvers are homogeneous: (matrix * s1) x = (z * s2) has the solution x * s2 / s1 at every amplitude (an
+            # absolute threshold in a singularity guard, or in LAPACK glue, would show here); matrix and right-hand side
+            # are scaled by the same or by different powers of two (exact: the model cases stay exact)
+            s1 = _AMPS[(i // 2) % 4]
+            s2 = _AMPS[((i // 2) + (i // 8)) % 4]
+            tag = "2^%d/2^%d" % (round(np.log2(s1)), round(np.log2(s2)))
+            yield ("hermtoep", {"T0": float(np.real(r[0])) * s1, "T": r[1:] * s1, "Z": Z * s2, "amp": tag})
+            T0g = [2.0, -2.0 + 1.0j, 2.0 + 1.0j, -3.0][(i // 2) % 4]
+            yield ("toeplitz", {"T0": T0g * s1, "TC": TC * s1, "TR": TR * s1, "Z": Z * s2, "amp": tag})
+            yield ("cholesky", {"A": A * s1, "B": Z * s2, "amp": tag})
+    yield from _gen_extra(nrng, tier, maxn)
+
+
+_AMPS = [2.0 ** -80, 2.0 ** -30, 2.0 ** 40, 2.0 ** 70]
+
+
+def _int_pd_seq(nrng, n):
+    """integer-valued positive-definite sequence: N times the biased autocorrelation of small-integer data"""
+    while True:
+        x = nrng.integers(-4, 5, 3 * n + 2).astype(float)
+        N = len(x)
+        r = np.array([np.sum(x[k:] * x[: N - k]) for k in range(n)])
+        r[0] += 1.0
+        if min(_stage_errors(r) or [1.0]) > 1e-6:
+            return r
+
+
+def _gen_extra(nrng, tier, maxn):
+    """case families added after the audit of the check (placed after the original ones: these keep their random stream)"""
+    thorough = tier != "quick"
+    # ---- positive definiteness is a property of the leading (order+1) lags: PD leading block, a later lag makes the whole
+    # sequence indefinite, the order stops before the bad stage (pd oracle + correspondence); the order that reaches the
+    # bad stage, explicit and below n-1 where possible, is an indefinite case
+    fixed = [(np.array([1, .5, 2, .1]), 1, 2), (np.array([1, .5, .3, 5]), 2, 3), (np.array([2, .5 + .5j, .25j, 9]), 2, 3)]
+    for i, (r, o, bad) in enumerate(fixed):
+        for allow in (False, True):
+            yield ("lev", {"r": r, "order": o, "allow": allow, "cls": "pd", "q": 1 + (i + allow) % o, "fam": "leading-pd"})
+            yield ("lev", {"r": r, "order": bad, "allow": allow, "cls": "indef", "fam": "partial-order"})
+    for i in range(24 if not thorough else 300):
+        cplx = bool(i % 2)
+        n = int(nrng.integers(4, maxn + 1))
+        r = _pd_seq(nrng, n, cplx).copy()
+        j = int(nrng.integers(2, n))                       # first lag that is spoilt: stages 1..j-1 are untouched
+        r[j] = r[j] + float(nrng.integers(1, 4)) * np.real(r[0]) * [1, -1, 1j, -1j][(i // 2) % 4 if cplx else (i // 2) % 2]
+        se = _stage_errors(r)
+        if min(se[: j - 1]) < 1e-6 or not se[j - 1] < -1e-3:
+            continue
+        o = int(nrng.integers(1, j))
+        if (i // 8) % 3 == 0:
+            o = j - 1                                      # the last order that is still positive definite
+        sc = 1.0 if (i // 3) % 4 else _AMPS[(i // 12) % 4]
+        yield ("lev", {"r": r * sc, "order": o, "allow": bool((i // 2) % 2), "cls": "pd", "q": int(nrng.integers(1, o + 1)),
+                       "fam": "leading-pd"})
+        if all(abs(v) > 1e-6 for v in se[:j]):
+            yield ("lev", {"r": r * sc, "order": j, "allow": bool((i // 4) % 2), "cls": "indef", "fam": "partial-order"})
+    # ---- boundary of the singularity test: a stage error that is EXACTLY 0.0 (the sequence is singular, not positive
+    # definite): ValueError from the code and from the model.  (With allow_singularity=True the result is NaN: not asserted.)
+    sing = [np.array([1., 1, 1]), np.array([2., -2, 2]), np.array([1, 1j, -1]), np.array([1., 0, -1, 0]),
+            np.array([4., 2, -2, -4]), np.array([1., -1]), np.array([3, 3j]), np.array([4., 2, 1, .5, 3.25]),
+            np.array([2, 1j, -.5, -.25j, .125 + 1.5j])]
+    for i, r in enumerate(sing):
+        assert _stage_errors(r)[-1] == 0.0 and all(v > 0 for v in _stage_errors(r)[:-1]), r
+        reach = len(_stage_errors(r))
+        for jv in range(6 if not thorough else 12):
+            order = [None, reach, len(r) - 1][jv % 3]
+            sc = [1.0, 2.0 ** -80, 1.0, 2.0 ** 40, 2.0 ** -30, 2.0 ** 70][(jv // 3 + i) % 6] if jv >= 3 else 1.0
+            p = {"r": r * sc, "order": order, "allow": False, "cls": "singular"}
+            if sc == 1.0 and jv >= 3:
+                f = ["list", "tuple", "int"][(jv + i) % 3]
+                if f == "int" and (np.iscomplexobj(r) or not np.array_equal(r, np.round(r))):
+                    f = "list"
+                p["form"] = f
+            if jv % 4 == 1:
+                p["bare"] = True
+            yield ("lev", p)
+    # ---- exactly zero FIRST reflection coefficient (r1 = 0), followed by zero and non-zero ones
+    zfirst = [np.array([1, 0, .5, 0, .125]), np.array([2., 0, 0, 0]), np.array([1, 0, .5j, .25, 0]), np.array([1, 0, 0, .5]),
+              np.array([1, 0, 0, 0, -.5j, .25]), np.array([4., 0, -1, 2, 0, .5])]
+    for i, r in enumerate(zfirst):
+        assert min(_stage_errors(r)) > 1e-6
+        for jv in range(4 if not thorough else 8):
+            order = [None, 2, len(r) - 1, 1][jv % 4]
+            o = len(r) - 1 if order is None else order
+            sc = 1.0 if jv < 4 else _AMPS[(jv + i) % 4]
+            yield ("lev", {"r": r * sc, "order": order, "allow": bool((jv + i) % 2), "cls": "pd", "q": min(2, o),
+                           "fam": "zero-k1"})
+    # ---- entry forms: lists, tuples, lists mixing floats and complex numbers, integer dtypes, omitted optional arguments,
+    # numpy-integer order, order 0
+    docs = [np.array([4., 2., 1.5]), np.array([4., 2 + 1j, 1.5]), np.array([4., 2, 1]), np.array([3., -2 + 0.5j, .7 - 1j])]
+    k = 0
+    for r in docs:
+        cplx = np.iscomplexobj(r)
+        integer = (not cplx) and np.array_equal(r, np.round(r))
+        for f in ["list", "tuple", "mixedlist" if cplx else None, "int" if integer else None, "int32" if integer else None, "ndarray"]:
+            if f is None:
+                continue
+            for order, bare, oform in [(None, True, None), (None, False, None), (2, True, None), (1, False, "int64"),
+                                       (2, False, "int64"), (0, False, None), (0, True, "int64")]:
+                k += 1
+                p = {"r": r, "order": order, "allow": bool(k % 2) and not bare, "cls": "pd", "form": f, "fam": "forms"}
+                if order:
+                    p["q"] = 1 + k % order
+                if bare:
+                    p["bare"] = True
+                if oform:
+                    p["oform"] = oform
+                yield ("lev", p)
+    for i in range(18 if not thorough else 150):
+        cplx = bool(i % 2)
+        n = int(nrng.integers(2, 13))
+        integer = (i % 3 == 0) and not cplx
+        r = _int_pd_seq(nrng, n) if integer else _pd_seq(nrng, n, cplx)
+        if min(_stage_errors(r)) < 1e-6:
+            continue
+        f = (["int", "int32", "list"] if integer else ["list", "tuple", "mixedlist" if cplx else "list"])[(i // 2) % 3]
+        order = [None, n - 1, int(nrng.integers(0, n)), 0][(i // 6) % 4]
+        o = n - 1 if order is None else order
+        p = {"r": r, "order": order, "allow": bool((i // 2) % 2), "cls": "pd", "form": f, "fam": "forms"}
+        if o >= 1:
+            p["q"] = int(nrng.integers(1, o + 1))
+        if (i // 4) % 2 and order is not None:
+            p["oform"] = "int64"
+        if (i // 3) % 3 == 0 and not p["allow"]:
+            p["bare"] = True
+        yield ("lev", p)
+    # order 0 on ordinary arrays as well (the zeroth-order predictor: a = [], P = r0)
+    for i in range(4 if not thorough else 20):
+        r = _pd_seq(nrng, int(nrng.integers(1, 8)), bool(i % 2))
+        if r[0] > 0:
+            yield ("lev", {"r": r * (1.0 if i % 4 < 2 else _AMPS[(i // 4) % 4]), "order": 0, "allow": bool((i // 2) % 2),
+                           "cls": "pd", "fam": "order0"})
+    # solver entry forms.  HERMTOEP / LEVINSON keep a real zero-lag value: the stage error P is then real, and numpy's
+    # lexicographic complex `<=` coincides with the model's `re P <= 0` (no case with Re P = 0, Im P != 0 exists)
+    for i in range(24 if not thorough else 240):
+        n = int(nrng.integers(1, 9))
+        cplx = bool(i % 2)
+        zcplx = bool((i // 2) % 2)
+        integer = (i % 3 == 0) and not cplx
+        if integer:
+            r = _int_pd_seq(nrng, n + 1)
+            r[0] += 1.0
+            Z = nrng.integers(-9, 10, n + 1).astype(float)
+            TC = nrng.integers(-3, 4, n).astype(float)
+            TR = nrng.integers(-3, 4, n).astype(float)
+            T0 = float(np.sum(np.abs(TC)) + np.sum(np.abs(TR)) + 1 + int(nrng.integers(0, 3))) * [1, -1][(i // 3) % 2]
+            f = ["int", "int32", "list", "tuple"][(i // 3) % 4]
+            t0f = ["int", "npint", "python", "npfloat"][(i // 6) % 4]
+            zf = f
+        else:
+            r = _pd_seq(nrng, n + 1, cplx).copy()
+            r[0] = r[0] * 1.25
+            Z = dyadic(nrng, n + 1) + (1j * dyadic(nrng, n + 1) if zcplx else 0)
+            TC = dyadic(nrng, n, bits=4, scale=1) / (2 * n) + (1j * dyadic(nrng, n, bits=4, scale=1) / (2 * n) if cplx else 0)
+            TR = dyadic(nrng, n, bits=4, scale=1) / (2 * n) + (1j * dyadic(nrng, n, bits=4, scale=1) / (2 * n) if cplx else 0)
+            T0 = [2.0, -2.0, 2.5, 3.0][(i // 4) % 4]
+            f = ["list", "tuple", "ndarray", "mixedlist" if cplx else "list"][(i // 2) % 4]
+            t0f = ["npfloat", "python"][(i // 8) % 2]
+            zf = [f, "ndarray", "list"][(i // 4) % 3]
+        if not (r[0] > 0 and min(_stage_errors(r) or [1.0]) > 1e-6):
+            continue
+        yield ("hermtoep", {"T0": float(np.real(r[0])), "T": r[1:], "Z": Z, "form": f, "zform": zf, "t0form": t0f})
+        yield ("toeplitz", {"T0": T0, "TC": TC, "TR": TR, "Z": Z, "form": f, "zform": zf, "t0form": t0f})
+        if not integer:
+            # real first column with a complex first row, and the converse (the result is complex either way)
+            TCr = dyadic(nrng, n, bits=4, scale=1) / (2 * n)
+            TRc = TCr[::-1] + 1j * dyadic(nrng, n, bits=4, scale=1) / (2 * n)
+            a, b = (TCr, TRc) if (i // 2) % 2 else (TRc, TCr)
+            yield ("toeplitz", {"T0": [2.0, -2.0 + 1.0j][(i // 4) % 2], "TC": a, "TR": b, "Z": Z,
+                                "form": ["ndarray", "list"][(i // 8) % 2]})
+    # ---- CHOLESKY on Hermitian positive-definite matrices that are NOT Toeplitz (no persymmetry: A[i,j] != A[n-1-j,n-1-i]),
+    # A = G^H G + I; n = 1 included; right-hand sides with several columns; Fortran order; integer arrays; nested lists
+    for i in range(24 if not thorough else 200):
+        n = [1, 3, 6, 2, 4, int(nrng.integers(5, 13))][i % 6]
+        cplx = bool((i // 6) % 2)
+        integer = (i % 4 == 3) and not cplx
+        if integer:
+            G = nrng.integers(-3, 4, (n + 1, n)).astype(float)
+            B = nrng.integers(-9, 10, (n, 3) if (i // 2) % 2 else n).astype(float)
+        else:
+            G = dyadic(nrng, (n + 1) * n, bits=4, scale=1).reshape(n + 1, n)
+            if cplx:
+                G = G + 1j * dyadic(nrng, (n + 1) * n, bits=4, scale=1).reshape(n + 1, n)
+            shape = (n, 3) if (i // 2) % 2 else (n,)
+            B = dyadic(nrng, int(np.prod(shape))).reshape(shape)
+            if (i // 3) % 2:
+                B = B + 1j * dyadic(nrng, int(np.prod(shape))).reshape(shape)
+        A = np.conj(G.T) @ G + np.eye(n)
+        p = {"A": A, "B": B, "fam": "gram"}
+        if integer:
+            p["form"] = ["int", "list", "int32"][(i // 4) % 3]
+        elif (i // 4) % 3 == 1:
+            p["form"] = "list"
+        elif (i // 4) % 3 == 2:
+            p["fortran"] = True
+        if (i // 12) % 3 == 2 and not integer:
+            s1 = _AMPS[(i // 2) % 4]
+            s2 = _AMPS[(i // 5) % 4]
+            p["A"] = A * s1
+            p["B"] = B * s2
+            p["amp"] = "2^%d/2^%d" % (round(np.log2(s1)), round(np.log2(s2)))
+        yield ("cholesky", p)
